@@ -1024,11 +1024,15 @@ class ModelBuilder:
 
                 from dateutil.relativedelta import relativedelta
 
-                match = re.match(r"(\d+)([dwmy])", duration_str)
+                match = re.match(r"(\d+)(min|[hdwmy])", duration_str)
                 if match:
                     amount = int(match.group(1))
                     unit = match.group(2)
-                    if unit == "d":
+                    if unit == "min":
+                        end_date = start_date + relativedelta(minutes=amount)
+                    elif unit == "h":
+                        end_date = start_date + relativedelta(hours=amount)
+                    elif unit == "d":
                         end_date = start_date + relativedelta(days=amount)
                     elif unit == "w":
                         end_date = start_date + relativedelta(weeks=amount)
